@@ -88,13 +88,20 @@ var osUser = func() string {
 	return u.Username
 }()
 
-func newWorld() *world {
+func newWorld(own bool) *world {
 	w := &world{policy: map[int]pol{}, authz: map[string]bool{}, inherit: map[int]bool{}, defPol: pol{Auth: 2, Enc: 2}}
 	for _, c := range authCmds {
 		w.policy[c] = pol{Auth: 2, Enc: 2}
 	}
 	base := kit.BaseConfig(security.SecurityOptional, security.SecurityOptional, security.AuthClaimToBe, security.AuthToken)
 	base.SessionCache = nil
+	var ownCache *security.SessionCache
+	if own {
+		// the server keeps a session cache of its own (handshake-negotiated sessions are still filed in the
+		// process-wide one, which the server falls back to)
+		ownCache = security.NewSessionCache()
+		base.SessionCache = ownCache
+	}
 	tokenEnv.Apply(nil, base)
 	w.srv = server.New(base)
 	w.srv.SecurityConfigForCommand = func(cmd int) *security.SecurityConfig {
@@ -108,7 +115,7 @@ func newWorld() *world {
 			return nil
 		}
 		c := kit.BaseConfig(lvl[p.Auth], lvl[p.Enc], security.AuthClaimToBe, security.AuthToken)
-		c.SessionCache = nil
+		c.SessionCache = ownCache
 		if p.Integ {
 			c.Integrity = security.SecurityRequired
 		}
@@ -169,6 +176,7 @@ type conn struct {
 	kind     int
 	done     chan struct{}
 	key      []byte
+	keyed    bool // the session this connection established carries a key (a session without one is never resumable)
 	cache    *security.SessionCache // client cache holding this connection's session
 }
 
@@ -194,6 +202,8 @@ var keyModes = []kit.KeyMode{kit.KeyOmit, kit.KeyTruncated, kit.KeyRandom, kit.K
 
 type Case struct {
 	Ops []Op `json:"ops"`
+	// Own: the server's configurations carry a SessionCache of their own
+	Own bool `json:"own,omitempty"`
 }
 
 var permNames = []string{"READ", "WRITE", "DAEMON"}
@@ -302,7 +312,7 @@ func readReply(c *conn, cmd int) (got bool, closed bool) {
 func runCase(cs Case) (string, stats) {
 	var st stats
 	security.ClearSessionCache()
-	w := newWorld()
+	w := newWorld(cs.Own)
 	var kept *conn
 	var lastSess [4]*conn // last established session per client kind
 	clientCaches := [4]*security.SessionCache{security.NewSessionCache(), security.NewSessionCache(), security.NewSessionCache(), security.NewSessionCache()}
@@ -506,6 +516,7 @@ func runCase(cs Case) (string, stats) {
 				return fail(oi, op, "%s", v)
 			}
 			if herr == nil && replySeen {
+				c.keyed = c.encrypted
 				if op.K == "run" {
 					lastSess[kind] = c
 				}
@@ -587,7 +598,7 @@ func runCase(cs Case) (string, stats) {
 			plog, _ := kit.ScriptedClient(c.cc, kit.PeerOpts{ResumeSid: target.sid, ResumeResponse: true, Command: cmd}, 2*time.Second)
 			time.Sleep(20 * time.Millisecond)
 			first := w.takeInvs()
-			okFirst := plog.Err == nil && w.allowed(cmd, true, target.authed, true, target.user)
+			okFirst := plog.Err == nil && target.keyed && w.allowed(cmd, true, target.authed, true, target.user)
 			for _, inv := range first {
 				if !okFirst || inv.cmd != cmd {
 					return fail(oi, op, "a requester knowing only a session id triggered the handler of command %d, which the model refuses for that session", inv.cmd)
@@ -618,6 +629,7 @@ func runCase(cs Case) (string, stats) {
 
 func genCase(t *rapid.T) Case {
 	var c Case
+	c.Own = rapid.IntRange(0, 2).Draw(t, "own") == 0
 	n := rapid.IntRange(3, 10).Draw(t, "nops")
 	for i := 0; i < n; i++ {
 		k := rapid.SampledFrom([]string{"run", "run", "run", "follow", "follow", "resume", "resume", "raw", "policy", "policy", "authz", "authz", "authorizer", "restart", "sidonly", "inherit", "defpolicy", "register"}).Draw(t, "op")
@@ -700,6 +712,12 @@ func TestC05Directed(t *testing.T) {
 		}
 		cases = append(cases, Case{Ops: []Op{{K: "run", Cmd: 4, Kind: kind}, {K: "run", Cmd: 6, Kind: kind}, {K: "raw", Cmd: 0}, {K: "raw", Cmd: 4}, {K: "raw", Cmd: 5}, {K: "raw", Cmd: 6},
 			{K: "run", Cmd: 0, Kind: kind, Keep: true}, {K: "follow", Cmd: 4}, {K: "run", Cmd: 0, Kind: kind, Keep: true}, {K: "follow", Cmd: 6}}})
+	}
+	// every third scenario again on a server that has a session cache of its own
+	for i, c := range append([]Case(nil), cases...) {
+		if i%3 == 0 {
+			cases = append(cases, Case{Ops: c.Ops, Own: true})
+		}
 	}
 	// registration histories: the LAST Handle/HandleRaw call for a command decides its path, policy and levels
 	regs := []Op{{K: "register", On: true}, {K: "register", Perm: 0}, {K: "register", Perm: 1}, {K: "register", Perm: 2}, {K: "register", Perm: 5}}
